@@ -556,11 +556,11 @@ Proof.
   induction fs as [|f rest IH]; intros T a Hnd Harr Hrem Htot.
   - destruct Harr as (f & E & _). destruct a; discriminate.
   - cbn [fate_f]. rewrite req_keys_cons in Hnd. destruct a as [|a].
-    + apply arrives_0 in Harr.
+    + apply (proj1 (arrives_0 f rest r)) in Harr.
       replace (has_key r_key (r_key r) (f_reqs f)) with true
         by (symmetry; apply has_key_In; now apply in_map).
       apply fate_w_true; [|assumption]. intros j Hj. apply Hrem in Hj. lia.
-    + apply arrives_S in Harr.
+    + apply (proj1 (arrives_S f rest a r)) in Harr.
       replace (has_key r_key (r_key r) (f_reqs f)) with false.
       2:{ symmetry. apply has_key_false. intros Hin. eapply NoDup_app_disjoint_l; eauto.
           unfold req_keys. apply in_map. eapply arrives_in; eauto. }
@@ -580,8 +580,8 @@ Proof.
   induction fs as [|f rest IH]; intros T j Hrem Hj; [reflexivity|]. cbn [fate_w].
   destruct (memz (r_key r) (f_rems f)) eqn:E; [reflexivity|].
   apply memz_false in E. destruct j as [|j].
-  { apply removed_at_0 in Hrem. contradiction. }
-  apply removed_at_S in Hrem. rewrite seen_cons in Hj.
+  { apply (proj1 (removed_at_0 f rest (r_key r))) in Hrem. contradiction. }
+  apply (proj1 (removed_at_S f rest j (r_key r))) in Hrem. rewrite seen_cons in Hj.
   pose proof (zlen_nonneg (stream_of (firstn j rest))) as Hs. fold (seen rest j) in Hs.
   destruct (r_lo r + r_n r <=? T + zlen (f_chunk f)) eqn:E2; [lia|].
   apply (IH _ j); [assumption|]. right. lia.
@@ -599,19 +599,19 @@ Lemma fate_f_false r : forall fs T a j, NoDup (req_keys fs) -> rems_ok fs = true
 Proof.
   induction fs as [|f rest IH]; intros T a j Hnd Hok Harr Hrem Hj; [reflexivity|].
   cbn [fate_f]. rewrite req_keys_cons in Hnd. destruct a as [|a].
-  - apply arrives_0 in Harr.
+  - apply (proj1 (arrives_0 f rest r)) in Harr.
     replace (has_key r_key (r_key r) (f_reqs f)) with true
       by (symmetry; apply has_key_In; now apply in_map).
     apply (fate_w_false r _ T j); [assumption|]. destruct Hj; [left; lia|now right].
-  - apply arrives_S in Harr.
+  - apply (proj1 (arrives_S f rest a r)) in Harr.
     replace (has_key r_key (r_key r) (f_reqs f)) with false.
     2:{ symmetry. apply has_key_false. intros Hin. eapply NoDup_app_disjoint_l; eauto.
         unfold req_keys. apply in_map. eapply arrives_in; eauto. }
     destruct j as [|j].
     { (* a removal notice ahead of its request is excluded by rems_ok *)
-      apply removed_at_0 in Hrem. exfalso. eapply rems_ok_later; eauto.
+      apply (proj1 (removed_at_0 f rest (r_key r))) in Hrem. exfalso. eapply rems_ok_later; eauto.
       unfold req_keys. apply in_map. eapply arrives_in; eauto. }
-    apply removed_at_S in Hrem. rewrite seen_cons in Hj.
+    apply (proj1 (removed_at_S f rest j (r_key r))) in Hrem. rewrite seen_cons in Hj.
     apply (IH _ a j); auto.
     + eapply NoDup_app_remove_l; eauto.
     + cbn [rems_ok] in Hok. apply andb_true_iff in Hok. tauto.
